@@ -206,7 +206,10 @@ class _RangeIterator(Iterator[_ValueT]):
         batch_size = self._batch_size
         if self._batch_size > 1:
           batch_size = min(self.i + self._batch_size, self.stop) - self.i
-          self._cache.extend(self.data[self.i : self.i + batch_size])
+          # A slice can be lazy (e.g., of a MergedSequences) and fail midway:
+          # read it completely before caching any of it.
+          batch = list(self.data[self.i : self.i + batch_size])
+          self._cache.extend(batch)
         else:
           self._cache.append(self.data[self.i])
         self.i += batch_size
